@@ -63,6 +63,12 @@ def gen_template(rng):
         head += '<%%page args="%s"/>' % ", ".join("%s=%s" % (a, rng.choice(["1", "b"])) for a in rng.sample("abcd", rng.randint(1, 2)))
     if rng.random() < 0.4:
         head += "<%%! %s = 1 %%>" % rng.choice("efgh")
+    if rng.random() < 0.3:
+        # an inline namespace: its defs are scopes branched from the module's names only (write_namespaces)
+        counter[0] += 1
+        inner = "".join('<%%def name="n%d_%d(%s)">%s</%%def>' % (counter[0], j, rng.choice(["", "a", "a, b=c"]), "".join(gen_nodes(rng, 1, True, counter)))
+                        for j in range(rng.randint(1, 2)))
+        head += '<%%namespace name="ns%d">%s</%%namespace>' % (counter[0], inner)
     return head + "\n" + "\n".join(gen_nodes(rng, 3, False, counter)) + "\n"
 
 
@@ -165,6 +171,17 @@ def cases_of(src):
                 bi = ci.branch(n, nested=False)
                 yield "call (body scope)", "ids|%s|b0|1 %s" % (ids_tok(ci, names), tok(n, names)), ids_sets(bi, names), names
                 yield from scopes(bi, n.nodes, "in")
+            elif isinstance(n, parsetree.NamespaceTag):
+                if n.nodes and where == "top":
+                    # write_namespaces: the namespace's scope is branched from the module's scope, and each def written in the
+                    # tag from that one, not nested (write_inline_def(node, identifiers, nested=False))
+                    ni = mi.branch(n)
+                    yield "inline namespace", "ids|%s|b0|1 %s" % (ids_tok(mi, names), tok(n, names)), ids_sets(ni, names), names
+                    for d in n.nodes:
+                        if isinstance(d, (parsetree.DefTag, parsetree.BlockTag)):
+                            real = ni.branch(d, nested=False)
+                            yield "namespace def %s" % d.funcname, "ids|%s|b0|1 %s" % (ids_tok(ni, names), tok(d, names)), ids_sets(real, names), names
+                            yield from scopes(real, d.nodes, "in")
             elif hasattr(n, "nodes") and not isinstance(n, parsetree.ControlLine):
                 yield from scopes(parent_ids, n.nodes, where)
     yield from scopes(body, tree.nodes, "top")
